@@ -178,6 +178,21 @@ def value_matrix(chk, root):
                         fails.append(dict(clause="later-call-equal-value-and-type", value=name, backend=backend, which=tag,
                                           got_type=type(got).__name__, expected_type=type(expected).__name__))
                         break
+                # forgetting the call makes exactly that call run again - once - while the caller still holds the
+                # first result object
+                try:
+                    c02fns.REC.calls.clear()
+                    c02fns.tv.forget(i)
+                    again = c02fns.tv(i)
+                    again2 = c02fns.tv(i)
+                    if c02fns.REC.calls != [i]:
+                        fails.append(dict(clause="forget-reruns-exactly-that-call", value=name, backend=backend,
+                                          execs=list(c02fns.REC.calls)))
+                    elif not same(again2, expected):
+                        fails.append(dict(clause="later-call-equal-value-and-type", value=name, backend=backend, which="after-forget"))
+                except Exception as e:
+                    fails.append(dict(clause="forget-reruns-exactly-that-call", value=name, backend=backend, error=repr(e)[:200]))
+                del first, second, third
                 if mm is None:
                     fails.append(dict(clause="memoized", value=name, backend=backend))
                 else:
